@@ -4,6 +4,7 @@ package decorator
 
 import (
 	"fmt"
+	"net/http"
 	"sort"
 	"strings"
 	"testing"
@@ -114,6 +115,10 @@ func histChildren(s histSpec, genSel bool, observed kit.M) kit.L {
 
 var histSSA bool
 
+// one-shot faults armed together with a spec change: the next hook call answers 500 / the next child write gets a 500
+var histHookFaults int
+var histWriteFaults int
+
 // histLastErr: the error of the last sync of the last settle (nil = it succeeded)
 var histLastErr error
 
@@ -143,10 +148,17 @@ func histWorld(cfg histCfg, s histSpec) *dworld {
 	kit.Field(p, "puid", "metadata", "uid")
 	s.into(p)
 	w.Sim.Seed(p)
-	w.Hooks.Handle("/dc/sync", world.JSON(func(req map[string]interface{}) interface{} {
+	good := world.JSON(func(req map[string]interface{}) interface{} {
 		sp := histSpecOf(req)
 		return kit.M{"labels": kit.M{"decorated": sp.V}, "attachments": histChildren(sp, true, kit.Map(req, "attachments", "Leaf.v1"))}
-	}))
+	})
+	w.Hooks.Handle("/dc/sync", func(hc *world.HookCall) (int, http.Header, []byte, error) {
+		if histHookFaults > 0 {
+			histHookFaults--
+			return 500, nil, []byte("the hook is having a bad moment"), nil
+		}
+		return good(hc)
+	})
 	w.DeliverAll()
 	return w
 }
@@ -156,6 +168,14 @@ func histWorld(cfg histCfg, s histSpec) *dworld {
 func histSettle(w *dworld, bad func(key, format string, a ...interface{})) bool {
 	for round := 0; round < 10; round++ {
 		w.Sim.ResetLog()
+		hookFaultsBefore := histHookFaults
+		w.Sim.Plan = func(r *sim.Request) *sim.Fault {
+			if histWriteFaults > 0 && r.Kind == kit.Leaf && r.Mutating() {
+				histWriteFaults--
+				return &sim.Fault{Code: 500, Reason: "InternalError"}
+			}
+			return nil
+		}
 		fp := vcache.TakeFingerprint()
 		err, p, stack := w.syncKey(dkey(kit.Obj(kit.Thing, "n1", "p")))
 		if p != nil {
@@ -168,9 +188,21 @@ func histSettle(w *dworld, bad func(key, format string, a ...interface{})) bool 
 		// (a sync that fails - e.g. an optimistic-lock conflict because the hook echoed a stale resourceVersion - is
 		// retried by the work queue; what counts here is that the retries end in quiescence. C12 judges errors.)
 		writes := 0
+		w.Sim.Plan = nil
 		histLastErr = err
 		if err != nil {
 			writes++
+		}
+		if histHookFaults < hookFaultsBefore {
+			// the hook did not answer in this sync: nothing may be written for the children on its behalf
+			for _, r := range w.Sim.Log {
+				if r.Kind == kit.Leaf && r.Mutating() {
+					bad("child-write-without-hook-answer", "the sync hook answered 500 and %s was sent all the same", r)
+				}
+			}
+			if err == nil {
+				bad("hook-failure-not-reported", "the sync hook answered 500 and the sync reported success")
+			}
 		}
 		for _, r := range w.Sim.Log {
 			if r.Mutating() {
@@ -313,6 +345,11 @@ func (x *histSys) Events() []string {
 		add("status", fmt.Sprint(x.spec.Status), "true", "false")
 	}
 	add("echo", x.spec.Echo, "", "annotations", "full")
+	// every change of the desired state also together with a one-shot fault: the hook fails once / one child
+	// write is refused once - the retries must end in the same cluster
+	for _, e := range append([]string{}, ev...) {
+		ev = append(ev, e+"!hook-500", e+"!write-500")
+	}
 	if x.full {
 		add("ann", fmt.Sprint(x.spec.Ann), "true", "false")
 		add("lbl", fmt.Sprint(x.spec.Lbl), "true", "false")
@@ -338,6 +375,16 @@ func (x *histSys) Apply(ev string) {
 			x.w.Sim.Edit(kit.Leaf, "n1", "a", func(o map[string]interface{}) { kit.Field(o, "0", "spec", "v") })
 		}
 	} else {
+		histHookFaults, histWriteFaults = 0, 0
+		if i := strings.Index(ev, "!"); i > 0 {
+			switch ev[i+1:] {
+			case "hook-500":
+				histHookFaults = 1
+			case "write-500":
+				histWriteFaults = 1
+			}
+			ev = ev[:i]
+		}
 		kv := strings.SplitN(ev, "=", 2)
 		switch kv[0] {
 		case "v":
